@@ -105,6 +105,11 @@ class Gen:
          dict(identifier=3, bank_range=(0x7E, 0x7F), addr_range=(0, 0xFFFF), mask=0x10000, writable=1)],
         [dict(identifier=1, bank_range=(0x00, 0x3F), addr_range=(0x8000, 0xFFFF), mask=0x10000, mirror_bank_range=(0x80, 0xBF)),
          dict(identifier=2, bank_range=(0x7E, 0x7F), addr_range=(0, 0xFFFF), mask=0x10000, writable=1)],
+        # the customary full descriptions: the mirror range has more banks than the primary one (00-7D seen at 80-FF, 40-7D seen at C0-FF)
+        [dict(identifier=1, bank_range=(0x00, 0x7D), addr_range=(0x8000, 0xFFFF), mask=0x8000, mirror_bank_range=(0x80, 0xFF)),
+         dict(identifier=2, bank_range=(0x7E, 0x7F), addr_range=(0, 0xFFFF), mask=0x10000, writable=1)],
+        [dict(identifier=1, bank_range=(0x40, 0x7D), addr_range=(0, 0xFFFF), mask=0x10000, mirror_bank_range=(0xC0, 0xFF)),
+         dict(identifier=2, bank_range=(0x7E, 0x7F), addr_range=(0, 0xFFFF), mask=0x10000, writable=1)],
         # battery RAM 70-7D seen again at F0-FD (a RAM mapping with a mirror), work RAM, LoROM
         [dict(identifier=1, bank_range=(0x00, 0x6F), addr_range=(0x8000, 0xFFFF), mask=0x8000, mirror_bank_range=(0x80, 0xEF)),
          dict(identifier=3, bank_range=(0x70, 0x7D), addr_range=(0, 0x7FFF), mask=0x8000, writable=1, mirror_bank_range=(0xF0, 0xFD)),
